@@ -973,11 +973,70 @@ theorem correctStep_spec (W : Nat) (lhsTop qh : Nat) (lhsLo rhs : List Nat)
 theorem pow_two_mul_half (W : Nat) (hW : 1 ≤ W) : 2 ^ W = 2 * 2 ^ (W - 1) := by
   rw [← Nat.pow_succ']; congr 1; omega
 
+/-- a normalised divisor (`B^n ≤ 2b`) has the top bit of its top word set -/
+theorem norm_top (B P2 vrlo r0 r1 h : Nat) (hB : B = 2 * h) (h1 : vrlo < P2) (h2 : r0 < B)
+    (hn : P2 * B * B ≤ 2 * (vrlo + P2 * (r0 + B * r1))) : B ≤ 2 * r1 := by
+  by_contra hcon
+  have hlt : 2 * r1 + 2 ≤ B := by omega
+  have e1 : P2 * B * (2 * r1 + 2) ≤ P2 * B * B := Nat.mul_le_mul_left _ hlt
+  have e2 : P2 * (r0 + 1) ≤ P2 * B := Nat.mul_le_mul_left _ h2
+  nlinarith
+
+/-- Knuth's estimate with the 3-by-2 quotient: never too small, too large by at most one
+    (pure arithmetic; `d = r0 + B·r1 ≥ B` is the top double word of the divisor) -/
+theorem est_case1 (B P2 l1 l2 t r0 r1 vwlo vrlo : Nat) (hl1 : l1 < B) (hl2 : l2 < B)
+    (ht : t < r1) (h1 : vwlo < P2) (h2 : vrlo < P2) :
+    l1 + B * t < r0 + B * r1 ∧
+    (l2 + B * (l1 + B * t)) / (r0 + B * r1) < B ∧
+    vwlo + P2 * (l2 + B * l1) + t * (P2 * B * B)
+      < ((l2 + B * (l1 + B * t)) / (r0 + B * r1) + 1) * (vrlo + P2 * (r0 + B * r1)) ∧
+    (l2 + B * (l1 + B * t)) / (r0 + B * r1) * (vrlo + P2 * (r0 + B * r1))
+      ≤ vwlo + P2 * (l2 + B * l1) + t * (P2 * B * B) + (vrlo + P2 * (r0 + B * r1)) := by
+  have hpre : l1 + B * t < r0 + B * r1 := by
+    have : B * (t + 1) ≤ B * r1 := Nat.mul_le_mul_left _ ht
+    nlinarith
+  have hdpos : 0 < r0 + B * r1 := by omega
+  have hdm := Nat.div_add_mod (l2 + B * (l1 + B * t)) (r0 + B * r1)
+  have hml := Nat.mod_lt (l2 + B * (l1 + B * t)) hdpos
+  have hqlt : (l2 + B * (l1 + B * t)) / (r0 + B * r1) < B := by
+    rw [Nat.div_lt_iff_lt_mul hdpos]
+    have : B * (l1 + B * t + 1) ≤ B * (r0 + B * r1) := Nat.mul_le_mul_left _ hpre
+    nlinarith
+  refine ⟨hpre, hqlt, ?_, ?_⟩
+  · generalize (l2 + B * (l1 + B * t)) / (r0 + B * r1) = q at *
+    generalize (l2 + B * (l1 + B * t)) % (r0 + B * r1) = rr at *
+    have e1 : P2 * (B * (l1 + B * t) + l2 + 1) ≤ P2 * ((r0 + B * r1) * (q + 1)) :=
+      Nat.mul_le_mul_left _ (by nlinarith)
+    nlinarith
+  · generalize (l2 + B * (l1 + B * t)) / (r0 + B * r1) = q at *
+    generalize (l2 + B * (l1 + B * t)) % (r0 + B * r1) = rr at *
+    have e1 : P2 * ((r0 + B * r1) * q) ≤ P2 * (l2 + B * (l1 + B * t)) :=
+      Nat.mul_le_mul_left _ (by omega)
+    have e2 : q * vrlo ≤ B * P2 := Nat.mul_le_mul (by omega) (by omega)
+    have e3 : P2 * B ≤ P2 * (r0 + B * r1) := Nat.mul_le_mul_left _ (by nlinarith)
+    nlinarith
+
+/-- the estimate `B − 1` (taken when `lhs_top ≥ rhs_top`) is too large by at most one -/
+theorem est_case2 (M P2 l1 l2 t r0 r1 vwlo vrlo : Nat) (hr0 : r0 ≤ M) (ht : r1 ≤ t)
+    (h2 : vrlo < P2) (hn : M + 1 ≤ 2 * r1) :
+    M * (vrlo + P2 * (r0 + (M + 1) * r1))
+      ≤ vwlo + P2 * (l2 + (M + 1) * l1) + t * (P2 * (M + 1) * (M + 1)) + (vrlo + P2 * (r0 + (M + 1) * r1)) := by
+  have e1 : P2 * (M + 1) * (M + 1) * r1 ≤ P2 * (M + 1) * (M + 1) * t := Nat.mul_le_mul_left _ ht
+  have e2 : M * vrlo ≤ M * P2 := Nat.mul_le_mul_left _ (by omega)
+  have e3 : M * (P2 * r0) ≤ M * (P2 * M) := Nat.mul_le_mul_left _ (Nat.mul_le_mul_left _ hr0)
+  have e4 : P2 * (M + 1) * (M + 1) ≤ P2 * (M + 1) * (2 * r1) := Nat.mul_le_mul_left _ hn
+  have n1 := Nat.zero_le (P2 * M)
+  have n2 := Nat.zero_le (P2 * l2)
+  have n3 := Nat.zero_le (P2 * M * l1)
+  have n4 := Nat.zero_le (P2 * l1)
+  have n5 := Nat.zero_le (P2 * r0)
+  linarith
+
 /-- the estimate of `div_rem_highest_word` (3-by-2 quotient of the top words, or `B − 1`) is
     never too small and too large by at most one -/
 theorem qEstimate_spec (W : Nat) (hW : 1 ≤ W) (lhsTop : Nat) (lhsLo rhs : List Nat)
     (hn : 2 ≤ rhs.length) (hL : rhs.length ≤ lhsLo.length)
-    (htop : lhsTop < 2 ^ W) (hlo : IsWords W lhsLo) (hr : IsWords W rhs)
+    (hlo : IsWords W lhsLo) (hr : IsWords W rhs)
     (hnorm : 2 ^ (W * rhs.length) ≤ 2 * val W rhs)
     (hA : val W (lhsLo.drop (lhsLo.length - rhs.length)) + lhsTop * 2 ^ (W * rhs.length)
         < val W rhs * 2 ^ W) :
@@ -991,15 +1050,13 @@ theorem qEstimate_spec (W : Nat) (hW : 1 ≤ W) (lhsTop : Nat) (lhsLo rhs : List
   obtain ⟨rlo, r0, r1, hrs, hg0, hg1, hrl⟩ := split_last2_getD rhs hn
   obtain ⟨llo, l2, l1, hls, hh0, hh1, hll⟩ := split_last2_getD lhsLo (by omega)
   have hr0 : r0 < 2 ^ W := hr r0 (by rw [hrs]; simp)
-  have hr1 : r1 < 2 ^ W := hr r1 (by rw [hrs]; simp)
   have hl2 : l2 < 2 ^ W := hlo l2 (by rw [hls]; simp)
   have hl1 : l1 < 2 ^ W := hlo l1 (by rw [hls]; simp)
   have hrlo : IsWords W rlo := fun x hx => hr x (by rw [hrs]; simp [hx])
   have hllo : IsWords W llo := fun x hx => hlo x (by rw [hls]; simp [hx])
   have hwin : lhsLo.drop (lhsLo.length - rhs.length)
-      = llo.drop (lhsLo.length - rhs.length) ++ [l2, l1] := by
-    conv => lhs; rw [hls]
-    exact List.drop_append_of_le_length (by omega)
+      = llo.drop (lhsLo.length - rhs.length) ++ [l2, l1] :=
+    (congrArg (List.drop _) hls).trans (List.drop_append_of_le_length (by omega))
   have hwlo : IsWords W (llo.drop (lhsLo.length - rhs.length)) := hllo.drop _
   have hwlen : (llo.drop (lhsLo.length - rhs.length)).length = rhs.length - 2 := by
     simp only [List.length_drop]; omega
@@ -1024,71 +1081,35 @@ theorem qEstimate_spec (W : Nat) (hW : 1 ≤ W) (lhsTop : Nat) (lhsLo rhs : List
     rw [Nat.add_mul_mod_self_left]; exact Nat.mod_eq_of_lt hl2
   have hhdd : (l2 + 2 ^ W * l1) / 2 ^ W = l1 := add_mul_div_word W l2 l1 hl2
   have hhalf := pow_two_mul_half W hW
-  generalize hvwlo : val W (llo.drop (lhsLo.length - rhs.length)) = vwlo at *
-  generalize hvrlo : val W rlo = vrlo at *
-  generalize hP2 : 2 ^ (W * (rhs.length - 2)) = P2 at *
-  have hP2pos : 0 < P2 := by rw [← hP2]; exact Nat.two_pow_pos _
-  -- normalisation: top word of rhs has its top bit set
-  have hr1n : 2 ^ W ≤ 2 * r1 + 1 := by
-    by_contra hcon
-    have hlt : 2 * r1 + 2 ≤ 2 ^ W := by omega
-    rw [hvb, hPn] at hnorm
-    have h1 : P2 * 2 ^ W * (2 * r1 + 2) ≤ P2 * 2 ^ W * 2 ^ W := Nat.mul_le_mul_left _ hlt
-    have h2 : P2 * (r0 + 1) ≤ P2 * 2 ^ W := Nat.mul_le_mul_left _ hr0
-    nlinarith
-  have hr1n' : 2 ^ W ≤ 2 * r1 := by omega
+  have hr1n : 2 ^ W ≤ 2 * r1 := by
+    apply norm_top (2 ^ W) (2 ^ (W * (rhs.length - 2))) (val W rlo) r0 r1 _ hhalf hrlolt hr0
+    rw [← hPn, ← hvb]; exact hnorm
   simp only [qEstimate, hg1, hhd, hhdm, hhdd, hdt]
   rw [hvw, hvb, hPn]
-  rw [hvw, hvb, hPn] at hA
   by_cases hc : lhsTop < r1
-  · -- 3-by-2 estimate
-    have hpre : l1 + 2 ^ W * lhsTop < r0 + 2 ^ W * r1 := by
-      have : 2 ^ W * (lhsTop + 1) ≤ 2 ^ W * r1 := Nat.mul_le_mul_left _ hc
-      nlinarith
-    have hdpos : 0 < r0 + 2 ^ W * r1 := by omega
-    have hdm := Nat.div_add_mod (l2 + 2 ^ W * (l1 + 2 ^ W * lhsTop)) (r0 + 2 ^ W * r1)
-    have hml := Nat.mod_lt (l2 + 2 ^ W * (l1 + 2 ^ W * lhsTop)) hdpos
-    have hqlt : (l2 + 2 ^ W * (l1 + 2 ^ W * lhsTop)) / (r0 + 2 ^ W * r1) < 2 ^ W := by
-      rw [Nat.div_lt_iff_lt_mul hdpos]
-      have : 2 ^ W * (l1 + 2 ^ W * lhsTop + 1) ≤ 2 ^ W * (r0 + 2 ^ W * r1) := Nat.mul_le_mul_left _ hpre
-      nlinarith
-    refine ⟨_, ?_, hqlt, ?_, ?_⟩
-    · simp only [hc, if_true, bind, Except.bind, div3by2_ok W _ _ _ hpre, pure, Except.pure]
-    · generalize (l2 + 2 ^ W * (l1 + 2 ^ W * lhsTop)) / (r0 + 2 ^ W * r1) = q at *
-      generalize (l2 + 2 ^ W * (l1 + 2 ^ W * lhsTop)) % (r0 + 2 ^ W * r1) = rr at *
-      generalize 2 ^ W = B at *
-      have h1 : P2 * (B * (l1 + B * lhsTop) + l2 + 1) ≤ P2 * ((r0 + B * r1) * (q + 1)) :=
-        Nat.mul_le_mul_left _ (by nlinarith)
-      nlinarith
-    · generalize (l2 + 2 ^ W * (l1 + 2 ^ W * lhsTop)) / (r0 + 2 ^ W * r1) = q at *
-      generalize (l2 + 2 ^ W * (l1 + 2 ^ W * lhsTop)) % (r0 + 2 ^ W * r1) = rr at *
-      generalize 2 ^ W = B at *
-      have h1 : P2 * ((r0 + B * r1) * q) ≤ P2 * (l2 + B * (l1 + B * lhsTop)) :=
-        Nat.mul_le_mul_left _ (by omega)
-      have h2 : q * vrlo ≤ B * P2 := Nat.mul_le_mul (by omega) (by omega)
-      have h3 : P2 * B ≤ P2 * (r0 + B * r1) := Nat.mul_le_mul_left _ (by nlinarith)
-      nlinarith
-  · -- estimate B − 1
-    have hc' : r1 ≤ lhsTop := Nat.le_of_not_lt hc
+  · obtain ⟨c1, c2, c3, c4⟩ := est_case1 (2 ^ W) (2 ^ (W * (rhs.length - 2))) l1 l2 lhsTop r0 r1
+      (val W (llo.drop (lhsLo.length - rhs.length))) (val W rlo) hl1 hl2 hc hwlolt hrlolt
+    refine ⟨_, ?_, c2, c3, c4⟩
+    simp only [hc, if_true, bind, Except.bind, div3by2_ok W _ _ _ c1, pure, Except.pure]
+  · have hc' : r1 ≤ lhsTop := Nat.le_of_not_lt hc
     refine ⟨2 ^ W - 1, ?_, by omega, ?_, ?_⟩
     · simp only [hc, if_false, pure, Except.pure]
     · have : 2 ^ W - 1 + 1 = 2 ^ W := by omega
-      rw [this, Nat.mul_comm (2 ^ W)]; exact hA
-    · generalize hM : 2 ^ W - 1 = M at *
-      have hB : 2 ^ W = M + 1 := by omega
-      rw [hB] at hr0 hr1 hr1n' hl2 hl1 hA ⊢
-      clear hhdm hhdd hhalf hPn hr1n hhd hdt hvw hvb
-      have h1 : P2 * (M + 1) * (M + 1) * r1 ≤ P2 * (M + 1) * (M + 1) * lhsTop := Nat.mul_le_mul_left _ hc'
-      have h2 : M * vrlo ≤ M * P2 := Nat.mul_le_mul_left _ (by omega)
-      have h3 : M * (P2 * r0) ≤ M * (P2 * M) := Nat.mul_le_mul_left _ (Nat.mul_le_mul_left _ (by omega))
-      have h4 : P2 * (M + 1) * (M + 1) ≤ P2 * (M + 1) * (2 * r1) := Nat.mul_le_mul_left _ hr1n'
-      nlinarith
+      rw [this]
+      have hA' := hA
+      rw [hvw, hvb, hPn] at hA'
+      exact Nat.lt_of_lt_of_eq hA' (Nat.mul_comm _ _)
+    · have hB : 2 ^ W = (2 ^ W - 1) + 1 := by omega
+      have := est_case2 (2 ^ W - 1) (2 ^ (W * (rhs.length - 2))) l1 l2 lhsTop r0 r1
+        (val W (llo.drop (lhsLo.length - rhs.length))) (val W rlo) (by omega) hc' hrlolt (by omega)
+      rw [← hB] at this
+      exact this
 
 /-- `div_rem_highest_word`: one exact quotient word of the (n+1)-word window by the normalised
     divisor, remainder in the window -/
 theorem divRemHighestWord_spec (W : Nat) (hW : 1 ≤ W) (lhsTop : Nat) (lhsLo rhs : List Nat)
     (hn : 2 ≤ rhs.length) (hL : rhs.length ≤ lhsLo.length)
-    (htop : lhsTop < 2 ^ W) (hlo : IsWords W lhsLo) (hr : IsWords W rhs)
+    (hlo : IsWords W lhsLo) (hr : IsWords W rhs)
     (hnorm : 2 ^ (W * rhs.length) ≤ 2 * val W rhs)
     (hA : val W (lhsLo.drop (lhsLo.length - rhs.length)) + lhsTop * 2 ^ (W * rhs.length)
         < val W rhs * 2 ^ W) :
@@ -1097,9 +1118,962 @@ theorem divRemHighestWord_spec (W : Nat) (hW : 1 ≤ W) (lhsTop : Nat) (lhsLo rh
       q < 2 ^ W ∧ win'.length = rhs.length ∧ IsWords W win' ∧ val W win' < val W rhs ∧
       q * val W rhs + val W win'
         = val W (lhsLo.drop (lhsLo.length - rhs.length)) + lhsTop * 2 ^ (W * rhs.length) := by
-  obtain ⟨qh, e, hq, f1, f2⟩ := qEstimate_spec W hW lhsTop lhsLo rhs hn hL htop hlo hr hnorm hA
+  obtain ⟨qh, e, hq, f1, f2⟩ := qEstimate_spec W hW lhsTop lhsLo rhs hn hL hlo hr hnorm hA
   obtain ⟨q, win', e2, hle, r1, r2, r3, r4⟩ := correctStep_spec W lhsTop qh lhsLo rhs hL hlo hr hq f1 f2
   refine ⟨q, win', ?_, by omega, r1, r2, r3, r4⟩
   simp only [divRemHighestWord, e, bind, Except.bind, e2]
+
+-- ------------------------------------------------------------------ Knuth D: the loop
+
+theorem val_append_one (W : Nat) (l : List Nat) (a : Nat) :
+    val W (l ++ [a]) = val W l + 2 ^ (W * l.length) * a := by
+  rw [val_append]; simp
+
+/-- the `while rem.len() > n` loop: exact quotient words and remainder -/
+theorem simpleLoop_spec (W : Nat) (hW : 1 ≤ W) (rhs : List Nat) (hn : 2 ≤ rhs.length)
+    (hr : IsWords W rhs) (hnorm : 2 ^ (W * rhs.length) ≤ 2 * val W rhs) (k : Nat) (lhs : List Nat)
+    (hlen : lhs.length = rhs.length + k) (hl : IsWords W lhs)
+    (hinv : val W (lhs.drop k) < val W rhs) :
+    ∃ out, simpleLoop W rhs (highestDword W rhs) k lhs = .ok out ∧ out.length = lhs.length ∧
+      IsWords W out ∧ val W (out.take rhs.length) < val W rhs ∧
+      val W (out.drop rhs.length) * val W rhs + val W (out.take rhs.length) = val W lhs := by
+  induction k generalizing lhs with
+  | zero =>
+    refine ⟨lhs, by simp [simpleLoop], rfl, hl, ?_, ?_⟩
+    · rw [List.take_of_length_le (by omega)]; simpa using hinv
+    · rw [List.take_of_length_le (by omega), List.drop_of_length_le (by omega)]; simp
+  | succ k ih =>
+    obtain ⟨lo, top, hsplit, hgd, htk, hlol⟩ := split_last1 lhs (by omega)
+    have hlo : IsWords W lo := by rw [← htk]; exact hl.take _
+    have htop : top < 2 ^ W := hl top (by rw [hsplit]; simp)
+    have hlolen : lo.length = rhs.length + k := by omega
+    have hk : lo.length - rhs.length = k := by omega
+    -- the precondition of div_rem_highest_word
+    have hdk : lo.drop k = lo[k]'(by omega) :: lo.drop (k + 1) := List.drop_eq_getElem_cons (by omega)
+    have hwk : lo[k]'(by omega) < 2 ^ W := hlo _ (List.getElem_mem _)
+    have hd1 : lhs.drop (k + 1) = lo.drop (k + 1) ++ [top] :=
+      (congrArg (List.drop _) hsplit).trans (List.drop_append_of_le_length (by omega))
+    have hl1 : (lo.drop (k + 1)).length = rhs.length - 1 := by simp only [List.length_drop]; omega
+    rw [hd1, val_append_one, hl1] at hinv
+    have hPn : 2 ^ (W * rhs.length) = 2 ^ W * 2 ^ (W * (rhs.length - 1)) := by
+      rw [← Nat.pow_add]; congr 1
+      have : rhs.length = 1 + (rhs.length - 1) := by omega
+      conv => lhs; rw [this]
+      ring
+    have hA : val W (lo.drop (lo.length - rhs.length)) + top * 2 ^ (W * rhs.length)
+        < val W rhs * 2 ^ W := by
+      rw [hk, hdk, val_cons, hPn]
+      generalize val W (lo.drop (k + 1)) = v at *
+      generalize 2 ^ (W * (rhs.length - 1)) = P1 at *
+      generalize lo[k]'(by omega) = w at *
+      have : 2 ^ W * (v + P1 * top + 1) ≤ 2 ^ W * val W rhs := Nat.mul_le_mul_left _ hinv
+      nlinarith
+    obtain ⟨q, win', e, hq, hwl, hww, hwlt, hweq⟩ :=
+      divRemHighestWord_spec W hW top lo rhs hn (by omega) hlo hr hnorm hA
+    rw [hk] at e hweq
+    -- recursion on the shrunk remainder
+    have htkl : (lo.take k).length = k := by rw [List.length_take]; omega
+    have hlo' : IsWords W (lo.take k ++ win') := IsWords.append (hlo.take _) hww
+    have hdrop' : (lo.take k ++ win').drop k = win' := by
+      have := List.drop_left' (l₁ := lo.take k) (l₂ := win') htkl
+      exact this
+    obtain ⟨out', e2, o1, o2, o3, o4⟩ := ih (lo.take k ++ win')
+      (by rw [List.length_append, htkl, hwl]; omega) hlo' (by rw [hdrop']; exact hwlt)
+    have ho1 : out'.length = rhs.length + k := by
+      rw [o1, List.length_append, htkl, hwl]; omega
+    refine ⟨out' ++ [q], ?_, ?_, IsWords.append o2 (IsWords.cons hq (IsWords.nil W)), ?_, ?_⟩
+    · simp only [simpleLoop, hgd, htk, e, bind, Except.bind, e2, pure, Except.pure]
+    · rw [List.length_append, ho1, hlen]; simp; omega
+    · rw [List.take_append_of_le_length (by omega)]; exact o3
+    · rw [List.take_append_of_le_length (by omega), List.drop_append_of_le_length (by omega),
+        val_append_one]
+      have hdl : (out'.drop rhs.length).length = k := by simp only [List.length_drop]; omega
+      rw [hdl]
+      have hvlo' : val W (lo.take k ++ win') = val W (lo.take k) + 2 ^ (W * k) * val W win' := by
+        rw [val_append, htkl]
+      have hvlo := take_drop_val W lo k (by omega)
+      have hvl : val W lhs = val W lo + 2 ^ (W * (rhs.length + k)) * top := by
+        conv => lhs; rw [hsplit]
+        rw [val_append_one, hlolen]
+      have hPk : 2 ^ (W * (rhs.length + k)) = 2 ^ (W * k) * 2 ^ (W * rhs.length) := by
+        rw [← Nat.pow_add]; congr 1; ring
+      rw [hvl, hvlo, hPk]
+      rw [hvlo'] at o4
+      generalize val W (out'.drop rhs.length) = Q at *
+      generalize val W (out'.take rhs.length) = R at *
+      generalize val W (lo.take k) = L at *
+      generalize val W (lo.drop k) = Wn at *
+      generalize 2 ^ (W * k) = Pk at *
+      generalize 2 ^ (W * rhs.length) = Pn at *
+      have e3 : Pk * (q * val W rhs + val W win') = Pk * (Wn + top * Pn) := by rw [hweq]
+      linarith [e3, o4]
+
+/-- `simple::div_rem_in_place`: lhs becomes [lhs % rhs, lhs / rhs], the quotient carry is the
+    comparison of the top words with the divisor -/
+theorem simpleDivRemInPlace_spec (W : Nat) (hW : 1 ≤ W) (lhs rhs : List Nat) (hn : 2 ≤ rhs.length)
+    (hm : rhs.length ≤ lhs.length) (hl : IsWords W lhs) (hr : IsWords W rhs)
+    (hnorm : 2 ^ (W * rhs.length) ≤ 2 * val W rhs) :
+    ∃ out c, simpleDivRemInPlace W lhs rhs (highestDword W rhs) = .ok (out, c) ∧
+      out.length = lhs.length ∧ IsWords W out ∧ c ≤ 1 ∧ val W (out.take rhs.length) < val W rhs ∧
+      (val W (out.drop rhs.length) + c * 2 ^ (W * (lhs.length - rhs.length))) * val W rhs
+        + val W (out.take rhs.length) = val W lhs := by
+  have htl : (lhs.drop (lhs.length - rhs.length)).length = rhs.length := by
+    simp only [List.length_drop]; omega
+  have htw : IsWords W (lhs.drop (lhs.length - rhs.length)) := hl.drop _
+  have hlw : IsWords W (lhs.take (lhs.length - rhs.length)) := hl.take _
+  have hll : (lhs.take (lhs.length - rhs.length)).length = lhs.length - rhs.length := by
+    rw [List.length_take]; omega
+  have hcmp := cmpSameLen_spec W _ rhs htl htw hr
+  have hvl := take_drop_val W lhs (lhs.length - rhs.length) (by omega)
+  have htlt : val W (lhs.drop (lhs.length - rhs.length)) < 2 ^ (W * rhs.length) := by
+    have := val_lt W _ htw; rwa [htl] at this
+  by_cases hge : val W rhs ≤ val W (lhs.drop (lhs.length - rhs.length))
+  · -- quotient carry: subtract rhs from the top words first
+    have hc : (cmpSameLen (lhs.drop (lhs.length - rhs.length)) rhs != .lt) = true := by
+      rw [hcmp]
+      rcases Nat.lt_or_eq_of_le hge with h | h
+      · rw [Nat.compare_eq_gt.mpr h]; rfl
+      · rw [Nat.compare_eq_eq.mpr h.symm]; rfl
+    have ⟨s1, s2, s3, s4⟩ := subSameLen_spec W _ rhs 0 htw hr htl (by omega)
+    rw [htl] at s1 s2
+    have hslt : val W (subSameLen W (lhs.drop (lhs.length - rhs.length)) rhs 0).1 < 2 ^ (W * rhs.length) := by
+      have := val_lt W _ s3; rwa [s2] at this
+    have hb0 : (subSameLen W (lhs.drop (lhs.length - rhs.length)) rhs 0).2 = 0 := by
+      rcases Nat.eq_zero_or_pos (subSameLen W (lhs.drop (lhs.length - rhs.length)) rhs 0).2 with h | h
+      · exact h
+      · exfalso
+        have : 2 ^ (W * rhs.length) * 1 ≤ 2 ^ (W * rhs.length) * (subSameLen W (lhs.drop (lhs.length - rhs.length)) rhs 0).2 :=
+          Nat.mul_le_mul_left _ h
+        omega
+    rw [hb0] at s1
+    obtain ⟨out, e, o1, o2, o3, o4⟩ := simpleLoop_spec W hW rhs hn hr hnorm (lhs.length - rhs.length)
+      (lhs.take (lhs.length - rhs.length) ++ (subSameLen W (lhs.drop (lhs.length - rhs.length)) rhs 0).1)
+      (by rw [List.length_append, hll, s2]; omega) (IsWords.append hlw s3)
+      (by rw [List.drop_left' hll]; omega)
+    refine ⟨out, 1, ?_, by rw [o1, List.length_append, hll, s2]; omega, o2, Nat.le_refl _, o3, ?_⟩
+    · have h1 : ¬ rhs.length < 2 := by omega
+      have h2 : ¬ lhs.length < rhs.length := by omega
+      simp only [simpleDivRemInPlace, h1, h2, if_false, hc, if_true, e, bind, Except.bind, pure,
+        Except.pure]
+    · rw [val_append, hll] at o4
+      rw [hvl]
+      generalize val W (out.drop rhs.length) = Q at *
+      generalize val W (out.take rhs.length) = R at *
+      generalize val W (lhs.take (lhs.length - rhs.length)) = L at *
+      generalize val W (lhs.drop (lhs.length - rhs.length)) = T at *
+      generalize val W (subSameLen W _ rhs 0).1 = S at *
+      generalize 2 ^ (W * (lhs.length - rhs.length)) = Pk at *
+      have e3 : Pk * (S + val W rhs + 0) = Pk * (T + 2 ^ (W * rhs.length) * 0) := by rw [s1]
+      linarith [e3, o4]
+  · have hlt : val W (lhs.drop (lhs.length - rhs.length)) < val W rhs := Nat.lt_of_not_le hge
+    have hc : (cmpSameLen (lhs.drop (lhs.length - rhs.length)) rhs != .lt) = false := by
+      rw [hcmp, Nat.compare_eq_lt.mpr hlt]; rfl
+    obtain ⟨out, e, o1, o2, o3, o4⟩ := simpleLoop_spec W hW rhs hn hr hnorm (lhs.length - rhs.length)
+      (lhs.take (lhs.length - rhs.length) ++ lhs.drop (lhs.length - rhs.length))
+      (by rw [List.length_append, hll, htl]; omega) (IsWords.append hlw htw)
+      (by rw [List.drop_left' hll]; exact hlt)
+    refine ⟨out, 0, ?_, by rw [o1, List.take_append_drop], o2, by omega, o3, ?_⟩
+    · have h1 : ¬ rhs.length < 2 := by omega
+      have h2 : ¬ lhs.length < rhs.length := by omega
+      simp only [simpleDivRemInPlace, h1, h2, if_false, hc, Bool.false_eq_true, e, bind, Except.bind,
+        pure, Except.pure]
+    · rw [List.take_append_drop] at o4
+      simpa using o4
+
+-- ------------------------------------------------------------------ frontier kernel, algorithm choice
+
+theorem toWords_spec (W n v : Nat) :
+    (toWords W n v).length = n ∧ IsWords W (toWords W n v) ∧ val W (toWords W n v) = v % 2 ^ (W * n) := by
+  induction n generalizing v with
+  | zero => simp [toWords, IsWords.nil, Nat.mod_one]
+  | succ n ih =>
+    obtain ⟨i1, i2, i3⟩ := ih (v / 2 ^ W)
+    refine ⟨by simp [toWords, i1], IsWords.cons (Nat.mod_lt _ (Nat.two_pow_pos W)) i2, ?_⟩
+    simp only [toWords, val_cons, i3]
+    have : 2 ^ (W * (n + 1)) = 2 ^ W * 2 ^ (W * n) := by rw [← Nat.pow_add]; congr 1; ring
+    rw [this, Nat.mod_mul, Nat.add_comm]
+
+/-- the frontier kernel meets the in-place division contract by definition -/
+theorem divRemInPlaceDCFrontier_spec (W : Nat) (lhs rhs : List Nat) (hm : rhs.length ≤ lhs.length)
+    (hr : IsWords W rhs) (hb : 0 < val W rhs) :
+    let r := divRemInPlaceDCFrontier W lhs rhs
+    r.1.length = lhs.length ∧ IsWords W r.1 ∧ val W (r.1.take rhs.length) < val W rhs ∧
+    (val W (r.1.drop rhs.length) + r.2 * 2 ^ (W * (lhs.length - rhs.length))) * val W rhs
+      + val W (r.1.take rhs.length) = val W lhs := by
+  obtain ⟨a1, a2, a3⟩ := toWords_spec W rhs.length (val W lhs % val W rhs)
+  obtain ⟨b1, b2, b3⟩ := toWords_spec W (lhs.length - rhs.length) (val W lhs / val W rhs)
+  have hblt : val W rhs < 2 ^ (W * rhs.length) := val_lt W rhs hr
+  have hrem : val W lhs % val W rhs % 2 ^ (W * rhs.length) = val W lhs % val W rhs :=
+    Nat.mod_eq_of_lt (Nat.lt_trans (Nat.mod_lt _ hb) hblt)
+  simp only [divRemInPlaceDCFrontier]
+  rw [List.take_left' a1, List.drop_left' a1, a3, b3, hrem]
+  refine ⟨by rw [List.length_append, a1, b1]; omega, IsWords.append a2 b2, Nat.mod_lt _ hb, ?_⟩
+  have h1 := Nat.div_add_mod (val W lhs / val W rhs) (2 ^ (W * (lhs.length - rhs.length)))
+  have h2 := Nat.div_add_mod (val W lhs) (val W rhs)
+  generalize val W lhs / val W rhs = Q at *
+  generalize val W lhs % val W rhs = R at *
+  generalize Q / 2 ^ (W * (lhs.length - rhs.length)) = c at *
+  generalize Q % 2 ^ (W * (lhs.length - rhs.length)) = q0 at *
+  have : (q0 + c * 2 ^ (W * (lhs.length - rhs.length))) = Q := by rw [← h1]; ring
+  rw [this, ← h2]; ring
+
+/-- `div::div_rem_in_place` (either algorithm): lhs becomes [lhs % rhs, lhs / rhs] + carry -/
+theorem divRemInPlace_spec (W : Nat) (hW : 1 ≤ W) (lhs rhs : List Nat) (hn : 2 ≤ rhs.length)
+    (hm : rhs.length ≤ lhs.length) (hl : IsWords W lhs) (hr : IsWords W rhs)
+    (hnorm : 2 ^ (W * rhs.length) ≤ 2 * val W rhs) :
+    ∃ out c, divRemInPlace W lhs rhs (highestDword W rhs) = .ok (out, c) ∧
+      out.length = lhs.length ∧ IsWords W out ∧ val W (out.take rhs.length) < val W rhs ∧
+      (val W (out.drop rhs.length) + c * 2 ^ (W * (lhs.length - rhs.length))) * val W rhs
+        + val W (out.take rhs.length) = val W lhs := by
+  unfold divRemInPlace
+  by_cases hs : rhs.length ≤ thresholdSimple ∨ lhs.length - rhs.length ≤ thresholdSimple
+  · rw [if_pos hs]
+    obtain ⟨out, c, e, o1, o2, _, o3, o4⟩ := simpleDivRemInPlace_spec W hW lhs rhs hn hm hl hr hnorm
+    exact ⟨out, c, e, o1, o2, o3, o4⟩
+  · rw [if_neg hs]
+    have hb : 0 < val W rhs := by
+      have := Nat.two_pow_pos (W * rhs.length); omega
+    obtain ⟨f1, f2, f3, f4⟩ := divRemInPlaceDCFrontier_spec W lhs rhs hm hr hb
+    exact ⟨_, _, rfl, f1, f2, f3, f4⟩
+
+-- ------------------------------------------------------------------ normalize / unshifted / in-lhs
+
+theorem highestDword_append (W : Nat) (l : List Nat) (a b : Nat) :
+    highestDword W (l ++ [a, b]) = a + 2 ^ W * b := by
+  simp [highestDword, List.getD_eq_getElem?_getD, List.getElem?_append_right]
+
+/-- `div::normalize`: shift so that the top bit is set; the top double word is a valid
+    3-by-2 divisor; no bits are lost -/
+theorem normalize_spec (W : Nat) (hW : 1 ≤ W) (ws : List Nat) (h : IsWords W ws) (hn : 2 ≤ ws.length)
+    (htop : ws.getD (ws.length - 1) 0 ≠ 0) :
+    ∃ ws' shift, normalize W ws = .ok (ws', shift, highestDword W ws') ∧ shift + 1 ≤ W ∧
+      ws'.length = ws.length ∧ IsWords W ws' ∧ val W ws' = val W ws * 2 ^ shift ∧
+      2 ^ (W * ws.length) ≤ 2 * val W ws' := by
+  obtain ⟨lo, top, hsplit, hgd, _, hlol⟩ := split_last1 ws (by omega)
+  rw [hgd] at htop
+  have htw : top < 2 ^ W := h top (by rw [hsplit]; simp)
+  have hlow : IsWords W lo := fun x hx => h x (by rw [hsplit]; simp [hx])
+  obtain ⟨l1, l2, l3⟩ := lz_spec (bits := W) htop htw
+  have sp := shlInPlace_spec W (lz W top) (by omega) ws h
+  generalize hsh : shlInPlace W ws (lz W top) = p at sp
+  obtain ⟨ws', c⟩ := p
+  simp only at sp
+  obtain ⟨s1, s2, s3, s4⟩ := sp
+  have hvl : val W ws = val W lo + 2 ^ (W * (ws.length - 1)) * top := by
+    conv => lhs; rw [hsplit]
+    rw [val_append_one, hlol]
+  have hlolt : val W lo < 2 ^ (W * (ws.length - 1)) := by
+    have := val_lt W lo hlow; rwa [hlol] at this
+  have hPn : 2 ^ (W * ws.length) = 2 ^ (W * (ws.length - 1)) * 2 ^ W := by
+    rw [← Nat.pow_add]; congr 1
+    have : ws.length = ws.length - 1 + 1 := by omega
+    conv => lhs; rw [this]
+    ring
+  have hhalf := pow_two_mul_half W hW
+  -- (top + 1) * 2^s ≤ B
+  have htop1 : (top + 1) * 2 ^ lz W top ≤ 2 ^ W := by
+    have hsp := pow_split (W := W) (s := lz W top) (by omega)
+    have : top < 2 ^ (W - lz W top) := by
+      apply Nat.lt_of_mul_lt_mul_right (a := 2 ^ lz W top)
+      rw [← hsp]; exact l3
+    rw [hsp]; exact Nat.mul_le_mul_right _ this
+  have hc0 : c = 0 := by
+    rcases Nat.eq_zero_or_pos c with hc | hc
+    · exact hc
+    · exfalso
+      have h1 : 2 ^ (W * ws.length) * 1 ≤ 2 ^ (W * ws.length) * c := Nat.mul_le_mul_left _ hc
+      have h2 : 2 ^ (W * (ws.length - 1)) * ((top + 1) * 2 ^ lz W top)
+          ≤ 2 ^ (W * (ws.length - 1)) * 2 ^ W := Nat.mul_le_mul_left _ htop1
+      rw [hvl, hPn] at s1
+      rw [hPn] at h1
+      nlinarith [Nat.two_pow_pos (lz W top)]
+  subst hc0
+  have hval : val W ws' = val W ws * 2 ^ lz W top := by simpa using s1
+  have hnorm : 2 ^ (W * ws.length) ≤ 2 * val W ws' := by
+    rw [hval, hvl, hPn, hhalf]
+    have h1 : 2 ^ (W * (ws.length - 1)) * 2 ^ (W - 1) ≤ 2 ^ (W * (ws.length - 1)) * (top * 2 ^ lz W top) :=
+      Nat.mul_le_mul_left _ l2
+    nlinarith [Nat.zero_le (val W lo * 2 ^ lz W top)]
+  -- the top double word is normalised
+  obtain ⟨l, a, b, hs2, _, _, hll⟩ := split_last2_getD ws' (by omega)
+  have hdw : highestDword W ws' = a + 2 ^ W * b := by
+    conv => lhs; rw [hs2]
+    exact highestDword_append W l a b
+  have hlw : IsWords W l := fun x hx => s3 x (by rw [hs2]; simp [hx])
+  have hllt : val W l < 2 ^ (W * (ws.length - 2)) := by
+    have := val_lt W l hlw; rwa [hll, s2] at this
+  have hv2 : val W ws' = val W l + 2 ^ (W * (ws.length - 2)) * (a + 2 ^ W * b) := by
+    conv => lhs; rw [hs2]
+    rw [val_append_two, hll, s2]
+  have hPn2 : 2 ^ (W * ws.length) = 2 ^ (W * (ws.length - 2)) * 2 ^ (2 * W) := by
+    rw [← Nat.pow_add]; congr 1
+    have : ws.length = ws.length - 2 + 2 := by omega
+    conv => lhs; rw [this]
+    ring
+  have hd : 2 ^ (2 * W - 1) ≤ a + 2 ^ W * b := by
+    have h2 := pow_two_mul_half (2 * W) (by omega)
+    rw [hv2, hPn2, h2] at hnorm
+    by_contra hcon
+    have hlt : a + 2 ^ W * b + 1 ≤ 2 ^ (2 * W - 1) := by omega
+    have h3 : 2 ^ (W * (ws.length - 2)) * (a + 2 ^ W * b + 1) ≤ 2 ^ (W * (ws.length - 2)) * 2 ^ (2 * W - 1) :=
+      Nat.mul_le_mul_left _ hlt
+    nlinarith
+  refine ⟨ws', lz W top, ?_, by omega, s2, s3, hval, hnorm⟩
+  have hne : ¬ ws.length = 0 := by omega
+  simp only [normalize, hne, if_false, hgd, hsh, ne_eq, not_true_eq_false, hdw, normNew_ok (2 * W) _ hd,
+    bind, Except.bind, pure, Except.pure]
+
+theorem qtop_lt (W s Q qTop Pk Pn b R X : Nat) (hs : s + 1 ≤ W) (hPk : 0 < Pk)
+    (heq : (Q + qTop * Pk) * b + R = X * 2 ^ s) (hX : X < Pk * Pn) (hn : Pn ≤ 2 * b) :
+    qTop < 2 ^ W := by
+  have hle : 2 ^ (s + 1) ≤ 2 ^ W := Nat.pow_le_pow_right (by omega) hs
+  have h2 : 2 ^ (s + 1) = 2 * 2 ^ s := by rw [Nat.pow_succ]; ring
+  by_contra hcon
+  have hq : 2 * 2 ^ s ≤ qTop := by omega
+  have h3 : 2 * 2 ^ s * (Pk * b) ≤ qTop * (Pk * b) := Nat.mul_le_mul_right _ hq
+  have h4 : 2 ^ s * (Pk * Pn) ≤ 2 ^ s * (Pk * (2 * b)) := Nat.mul_le_mul_left _ (Nat.mul_le_mul_left _ hn)
+  have h5 : (X + 1) * 2 ^ s ≤ Pk * Pn * 2 ^ s := Nat.mul_le_mul_right _ hX
+  have h6 := Nat.two_pow_pos s
+  nlinarith [Nat.zero_le (Q * b)]
+
+/-- `div_rem_unshifted_in_place`: shift the dividend, divide in place; `q_top` collects the shift
+    carry's quotient word and the quotient carry -/
+theorem divRemUnshiftedInPlace_spec (W : Nat) (hW : 1 ≤ W) (lhs rhs : List Nat) (shift : Nat)
+    (hn : 2 ≤ rhs.length) (hm : rhs.length ≤ lhs.length) (hl : IsWords W lhs) (hr : IsWords W rhs)
+    (hs : shift + 1 ≤ W) (hnorm : 2 ^ (W * rhs.length) ≤ 2 * val W rhs) :
+    ∃ out qTop, divRemUnshiftedInPlace W lhs rhs shift (highestDword W rhs) = .ok (out, qTop) ∧
+      out.length = lhs.length ∧ IsWords W out ∧ qTop < 2 ^ W ∧
+      val W (out.take rhs.length) < val W rhs ∧
+      (val W (out.drop rhs.length) + qTop * 2 ^ (W * (lhs.length - rhs.length))) * val W rhs
+        + val W (out.take rhs.length) = val W lhs * 2 ^ shift := by
+  have sp := shlInPlace_spec W shift (by omega) lhs hl
+  generalize hsh : shlInPlace W lhs shift = p at sp
+  obtain ⟨lhs1, carry⟩ := p
+  simp only at sp
+  obtain ⟨s1, s2, s3, s4⟩ := sp
+  have hPm : 2 ^ (W * lhs.length) = 2 ^ (W * (lhs.length - rhs.length)) * 2 ^ (W * rhs.length) := by
+    rw [← Nat.pow_add]; congr 1
+    have : lhs.length = (lhs.length - rhs.length) + rhs.length := by omega
+    conv => lhs; rw [this]
+    ring
+  have hXlt : val W lhs < 2 ^ (W * (lhs.length - rhs.length)) * 2 ^ (W * rhs.length) := by
+    rw [← hPm]; exact val_lt W lhs hl
+  have hqt : ∀ Q qTop R, (Q + qTop * 2 ^ (W * (lhs.length - rhs.length))) * val W rhs + R
+      = val W lhs * 2 ^ shift → qTop < 2 ^ W := fun Q qTop R heq =>
+    qtop_lt W shift Q qTop _ _ _ R _ hs (Nat.two_pow_pos _) heq hXlt hnorm
+  by_cases hc : carry > 0
+  · -- the shift carry is divided first
+    have hwl : (lhs1.drop (lhs1.length - rhs.length)).length = rhs.length := by
+      simp only [List.length_drop]; omega
+    have hwlt : val W (lhs1.drop (lhs1.length - rhs.length)) < 2 ^ (W * rhs.length) := by
+      have := val_lt W _ (s3.drop (lhs1.length - rhs.length)); rwa [hwl] at this
+    have hA : val W (lhs1.drop (lhs1.length - rhs.length)) + carry * 2 ^ (W * rhs.length)
+        < val W rhs * 2 ^ W := by
+      have hhalf := pow_two_mul_half W hW
+      have h1 : 2 ^ shift ≤ 2 ^ (W - 1) := Nat.pow_le_pow_right (by omega) (by omega)
+      have h2 : (carry + 1) * 2 ^ (W * rhs.length) ≤ 2 ^ (W - 1) * 2 ^ (W * rhs.length) :=
+        Nat.mul_le_mul_right _ (by omega)
+      have h3 : 2 ^ (W - 1) * 2 ^ (W * rhs.length) ≤ 2 ^ (W - 1) * (2 * val W rhs) :=
+        Nat.mul_le_mul_left _ hnorm
+      rw [hhalf]
+      nlinarith
+    obtain ⟨q, win', e, hq, hwl', hww, hwlt', hweq⟩ :=
+      divRemHighestWord_spec W hW carry lhs1 rhs hn (by omega) s3 hr hnorm hA
+    rw [s2] at e hweq
+    have htkl : (lhs1.take (lhs.length - rhs.length)).length = lhs.length - rhs.length := by
+      rw [List.length_take]; omega
+    have hl2 : IsWords W (lhs1.take (lhs.length - rhs.length) ++ win') :=
+      IsWords.append (s3.take _) hww
+    have hl2len : (lhs1.take (lhs.length - rhs.length) ++ win').length = lhs.length := by
+      rw [List.length_append, htkl, hwl']; omega
+    obtain ⟨out, c, e2, o1, o2, o3, o4⟩ :=
+      divRemInPlace_spec W hW _ rhs hn (by omega) hl2 hr hnorm
+    rw [hl2len] at o1 o4
+    have hv1 := take_drop_val W lhs1 (lhs.length - rhs.length) (by omega)
+    rw [val_append, htkl] at o4
+    have hfin : (val W (out.drop rhs.length) + (q + c) * 2 ^ (W * (lhs.length - rhs.length))) * val W rhs
+        + val W (out.take rhs.length) = val W lhs * 2 ^ shift := by
+      rw [← s1, hv1, hPm]
+      generalize val W (out.drop rhs.length) = Q at *
+      generalize val W (out.take rhs.length) = R at *
+      generalize val W (lhs1.take (lhs.length - rhs.length)) = L at *
+      generalize val W (lhs1.drop (lhs.length - rhs.length)) = Wn at *
+      generalize 2 ^ (W * (lhs.length - rhs.length)) = Pk at *
+      generalize 2 ^ (W * rhs.length) = Pn at *
+      have e3 : Pk * (q * val W rhs + val W win') = Pk * (Wn + carry * Pn) := by rw [hweq]
+      linarith [e3, o4]
+    refine ⟨out, q + c, ?_, o1, o2, hqt _ _ _ hfin, o3, hfin⟩
+    simp only [divRemUnshiftedInPlace, hsh, hc, if_true, e, bind, Except.bind, e2, pure, Except.pure]
+  · have hc0 : carry = 0 := by omega
+    subst hc0
+    obtain ⟨out, c, e2, o1, o2, o3, o4⟩ := divRemInPlace_spec W hW lhs1 rhs hn (by omega) s3 hr hnorm
+    rw [s2] at o1 o4
+    have hfin : (val W (out.drop rhs.length) + (0 + c) * 2 ^ (W * (lhs.length - rhs.length))) * val W rhs
+        + val W (out.take rhs.length) = val W lhs * 2 ^ shift := by
+      rw [← s1]; simpa using o4
+    refine ⟨out, 0 + c, ?_, o1, o2, hqt _ _ _ hfin, o3, hfin⟩
+    simp only [divRemUnshiftedInPlace, hsh, Nat.lt_irrefl, if_false, bind, Except.bind, e2, pure,
+      Except.pure, gt_iff_lt]
+
+/-- un-shift of the remainder: exact, the `debug_assert_zero!` holds -/
+theorem shrRemainder_spec (W s X : Nat) (hs : s ≤ W) (r : List Nat) (h : IsWords W r)
+    (hv : val W r = X * 2 ^ s) :
+    ∃ r', shrRemainder W r s = .ok r' ∧ val W r' = X ∧ r'.length = r.length ∧ IsWords W r' := by
+  have sp := shrInPlace_spec W s hs r h
+  generalize hsh : shrInPlace W r s = p at sp
+  obtain ⟨r', c⟩ := p
+  simp only at sp
+  obtain ⟨k', e1, hk', hvv, hl, hw⟩ := sp
+  have hps := Nat.two_pow_pos s
+  rw [hv] at hvv
+  have hk0 : k' = 0 := by
+    rcases Nat.lt_or_ge (val W r') X with hlt | hge
+    · exfalso
+      have : (val W r' + 1) * 2 ^ s ≤ X * 2 ^ s := Nat.mul_le_mul_right _ hlt
+      nlinarith
+    · have : X * 2 ^ s ≤ val W r' * 2 ^ s := Nat.mul_le_mul_right _ hge
+      omega
+  subst hk0
+  have hx : val W r' = X := by
+    apply Nat.eq_of_mul_eq_mul_right hps; simpa using hvv
+  refine ⟨r', ?_, hx, hl, hw⟩
+  simp only [shrRemainder, hsh, e1, Nat.zero_mul, ne_eq, not_true_eq_false, if_false]
+
+/-- `div_rem_in_lhs`: the buffer holds the exact quotient (incl. its top word) above the shifted
+    exact remainder -/
+theorem divRemInLhs_spec (W : Nat) (hW : 1 ≤ W) (lhs rhs : List Nat) (hl : IsWords W lhs)
+    (hr : IsWords W rhs) (hn : 2 ≤ rhs.length) (hm : rhs.length ≤ lhs.length)
+    (htop : rhs.getD (rhs.length - 1) 0 ≠ 0) :
+    ∃ buf rhs' shift, divRemInLhs W lhs rhs = .ok (buf, rhs', shift) ∧ rhs'.length = rhs.length ∧
+      shift ≤ W ∧ IsWords W buf ∧ buf.length = lhs.length + 1 ∧
+      val W (buf.drop rhs.length) = val W lhs / val W rhs ∧
+      val W (buf.take rhs.length) = (val W lhs % val W rhs) * 2 ^ shift := by
+  obtain ⟨rhs', shift, e, hs, n1, n2, n3, n4⟩ := normalize_spec W hW rhs hr hn htop
+  rw [← n1] at n4
+  obtain ⟨out, qTop, e2, o1, o2, o3, o4, o5⟩ :=
+    divRemUnshiftedInPlace_spec W hW lhs rhs' shift (by omega) (by omega) hl n2 hs n4
+  rw [n1] at o4 o5
+  have hdl : (out.drop rhs.length).length = lhs.length - rhs.length := by
+    simp only [List.length_drop]; omega
+  have hbpos : 0 < val W rhs := by
+    have h1 := Nat.two_pow_pos (W * rhs'.length)
+    have h2 := Nat.two_pow_pos shift
+    rw [n3] at n4
+    rcases Nat.eq_zero_or_pos (val W rhs) with h | h
+    · rw [h] at n4; omega
+    · exact h
+  refine ⟨out ++ [qTop], rhs', shift, ?_, n1, by omega,
+    IsWords.append o2 (IsWords.cons o3 (IsWords.nil W)), by rw [List.length_append, o1]; simp, ?_, ?_⟩
+  · simp only [divRemInLhs, e, bind, Except.bind, e2, pure, Except.pure]
+  all_goals
+    rw [n3] at o4 o5
+    have hq : val W ((out ++ [qTop]).drop rhs.length)
+        = val W (out.drop rhs.length) + qTop * 2 ^ (W * (lhs.length - rhs.length)) := by
+      rw [List.drop_append_of_le_length (by omega), val_append_one, hdl]; ring
+    have ht : (out ++ [qTop]).take rhs.length = out.take rhs.length :=
+      List.take_append_of_le_length (by omega)
+    first | rw [hq] | rw [ht]
+    have ⟨u1, u2⟩ := unshift _ _ _ _ _ o5 o4
+    have hu : val W lhs / val W rhs
+          = val W (out.drop rhs.length) + qTop * 2 ^ (W * (lhs.length - rhs.length)) ∧
+        val W lhs % val W rhs = val W (out.take rhs.length) / 2 ^ shift :=
+      (Nat.div_mod_unique hbpos).mpr ⟨by rw [← u1]; ring, u2⟩
+  · exact hu.1.symm
+  · rw [hu.2]
+    generalize val W (out.drop rhs.length) + qTop * 2 ^ (W * (lhs.length - rhs.length)) = Qt at *
+    generalize val W (out.take rhs.length) = R' at *
+    have h7 : (Qt * val W rhs + R' / 2 ^ shift) * 2 ^ shift = val W lhs * 2 ^ shift := by rw [u1]
+    generalize R' / 2 ^ shift = t at *
+    linarith [h7, o5]
+
+/-- `div_rem_large` / `div_large` / `rem_large`: exact quotient and remainder, canonical results -/
+theorem divRemLarge_spec (W : Nat) (hW : 1 ≤ W) (lhs rhs : List Nat) (hl : IsWords W lhs)
+    (hr : IsWords W rhs) (hn : 2 ≤ rhs.length) (hm : rhs.length ≤ lhs.length)
+    (htop : rhs.getD (rhs.length - 1) 0 ≠ 0) :
+    (∃ q r, divRemLarge W lhs rhs = .ok (q, r) ∧ q.value W = val W lhs / val W rhs ∧
+      r.value W = val W lhs % val W rhs ∧ q.Canon W ∧ r.Canon W) ∧
+    (∃ q, divLarge W lhs rhs = .ok q ∧ q.value W = val W lhs / val W rhs ∧ q.Canon W) ∧
+    (∃ r, remLarge W lhs rhs = .ok r ∧ r.value W = val W lhs % val W rhs ∧ r.Canon W) := by
+  obtain ⟨buf, rhs', shift, e, h1, h2, h3, h4, h5, h6⟩ := divRemInLhs_spec W hW lhs rhs hl hr hn hm htop
+  obtain ⟨r', e2, r1, r2, r3⟩ := shrRemainder_spec W shift _ h2 (buf.take rhs.length) (h3.take _) h6
+  refine ⟨⟨fromBuffer W (buf.drop rhs.length), fromBuffer W r', ?_, ?_, ?_,
+      fromBuffer_canon W _ (h3.drop _), fromBuffer_canon W _ r3⟩,
+    ⟨fromBuffer W (buf.drop rhs.length), ?_, ?_, fromBuffer_canon W _ (h3.drop _)⟩,
+    ⟨fromBuffer W r', ?_, ?_, fromBuffer_canon W _ r3⟩⟩
+  · simp only [divRemLarge, e, bind, Except.bind, h1, e2, pure, Except.pure]
+  · rw [fromBuffer_value, h5]
+  · rw [fromBuffer_value, r1]
+  · simp only [divLarge, e, bind, Except.bind, h1, pure, Except.pure]
+  · rw [fromBuffer_value, h5]
+  · simp only [remLarge, e, bind, Except.bind, h1, e2, pure, Except.pure]
+  · rw [fromBuffer_value, r1]
+
+-- ------------------------------------------------------------------ dispatch (`div_ops.rs mod repr`)
+
+theorem top_ne_zero_of_canon {W : Nat} {ws : List Nat} (h : (TRepr.large ws).Canon W) :
+    ws.getD (ws.length - 1) 0 ≠ 0 := by
+  obtain ⟨h3, _, hl⟩ := h
+  obtain ⟨lo, a, hs, hg, _, _⟩ := split_last1 ws (by omega)
+  rw [hg]
+  intro h0
+  apply hl
+  rw [hs, h0]; simp
+
+theorem small_canon_of_le {W x y : Nat} (hx : x < 2 ^ (2 * W)) (h : y ≤ x) : (TRepr.small y).Canon W :=
+  Nat.lt_of_le_of_lt h hx
+
+/-- quotient/remainder from the division identity -/
+theorem div_mod_of_eq {a b q r : Nat} (hb : 0 < b) (h : q * b + r = a) (hr : r < b) :
+    a / b = q ∧ a % b = r :=
+  (Nat.div_mod_unique hb).mpr ⟨by rw [← h]; ring, hr⟩
+
+/-- `div_rem_large_dword`: heap value by an inline divisor -/
+theorem divRemLargeDword_spec (W : Nat) (hW : 1 ≤ W) (ws : List Nat) (rhs : Nat)
+    (hc : (TRepr.large ws).Canon W) (hr : rhs < 2 ^ (2 * W)) :
+    (rhs = 0 → divRemLargeDword W ws rhs = .error .divideByZero) ∧
+    (rhs ≠ 0 → ∃ q r, divRemLargeDword W ws rhs = .ok (q, r) ∧ q.value W = val W ws / rhs ∧
+      r.value W = val W ws % rhs ∧ q.Canon W ∧ r.Canon W) := by
+  constructor
+  · intro h0; simp [divRemLargeDword, h0]
+  · intro hne
+    have hpos : 0 < rhs := Nat.pos_of_ne_zero hne
+    by_cases hw : rhs < 2 ^ W
+    · obtain ⟨qs, r, e, hv, hrl, _, hq⟩ := divByWordInPlace_spec W rhs ws hc.large_words hpos hw
+      have ⟨d1, d2⟩ := div_mod_of_eq hpos hv hrl
+      refine ⟨fromBuffer W qs, .small r, ?_, by rw [fromBuffer_value, d1], by simp [d2],
+        fromBuffer_canon W qs hq, Nat.lt_trans hrl hr⟩
+      simp only [divRemLargeDword, hne, if_false, hw, if_true, e, bind, Except.bind, pure, Except.pure]
+    · obtain ⟨qs, r, e, hv, hrl, _, hq⟩ := divByDwordInPlace_spec W rhs hW ws hc.large_words
+        (by have := hc.large_len; omega) (Nat.le_of_not_lt hw) hr
+      have ⟨d1, d2⟩ := div_mod_of_eq hpos hv hrl
+      refine ⟨fromBuffer W qs, .small r, ?_, by rw [fromBuffer_value, d1], by simp [d2],
+        fromBuffer_canon W qs hq, Nat.lt_trans hrl hr⟩
+      simp only [divRemLargeDword, hne, if_false, hw, e, bind, Except.bind, pure, Except.pure]
+
+/-- `rem_large_dword` (the `%` path uses `rem_by_word` / `rem_by_dword`) -/
+theorem remLargeDword_spec (W : Nat) (hW : 1 ≤ W) (ws : List Nat) (rhs : Nat)
+    (hc : (TRepr.large ws).Canon W) (hr : rhs < 2 ^ (2 * W)) :
+    (rhs = 0 → remLargeDword W ws rhs = .error .divideByZero) ∧
+    (rhs ≠ 0 → remLargeDword W ws rhs = .ok (.small (val W ws % rhs))) := by
+  constructor
+  · intro h0; simp [remLargeDword, h0]
+  · intro hne
+    have hpos : 0 < rhs := Nat.pos_of_ne_zero hne
+    by_cases hw : rhs < 2 ^ W
+    · have e := remByWord_spec W rhs ws hc.large_words hc.large_ne_nil hpos hw
+      simp only [remLargeDword, hne, if_false, hw, if_true, e, bind, Except.bind, pure, Except.pure]
+    · have e := remByDword_spec W rhs hW ws hc.large_words (by have := hc.large_len; omega)
+        (Nat.le_of_not_lt hw) hr
+      simp only [remLargeDword, hne, if_false, hw, e, bind, Except.bind, pure, Except.pure]
+
+/-- `DivRem for TypedRepr`: exact `(a / b, a % b)` with canonical results; `b = 0` panics -/
+theorem divRemRepr_spec (W : Nat) (hW : 1 ≤ W) (a b : TRepr) (ha : a.Canon W) (hb : b.Canon W) :
+    (b.value W = 0 → divRemRepr W a b = .error .divideByZero) ∧
+    (b.value W ≠ 0 → ∃ q r, divRemRepr W a b = .ok (q, r) ∧ q.value W = a.value W / b.value W ∧
+      r.value W = a.value W % b.value W ∧ q.Canon W ∧ r.Canon W) := by
+  cases a with
+  | small x =>
+    cases b with
+    | small y =>
+      constructor
+      · intro h0; simp only [TRepr.value_small] at h0; simp [divRemRepr, divRemDword, h0]
+      · intro hne
+        simp only [TRepr.value_small] at hne
+        exact ⟨.small (x / y), .small (x % y), by simp [divRemRepr, divRemDword, hne], rfl, rfl,
+          small_canon_of_le ha (Nat.div_le_self _ _), small_canon_of_le ha (Nat.mod_le _ _)⟩
+    | large ws =>
+      have hge := hb.large_ge
+      have hx : x < val W ws := Nat.lt_of_lt_of_le ha hge
+      constructor
+      · intro h0; simp only [TRepr.value_large] at h0; omega
+      · intro _
+        exact ⟨.small 0, .small x, rfl, by simp [Nat.div_eq_of_lt hx], by simp [Nat.mod_eq_of_lt hx],
+          Nat.two_pow_pos _, ha⟩
+  | large ws =>
+    cases b with
+    | small y => exact divRemLargeDword_spec W hW ws y ha hb
+    | large w1 =>
+      have hge := hb.large_ge
+      constructor
+      · intro h0; simp only [TRepr.value_large] at h0
+        have := Nat.two_pow_pos (2 * W); omega
+      · intro _
+        by_cases hl : ws.length ≥ w1.length
+        · obtain ⟨⟨q, r, e, h1, h2, h3, h4⟩, _, _⟩ := divRemLarge_spec W hW ws w1 ha.large_words
+            hb.large_words (by have := hb.large_len; omega) hl (top_ne_zero_of_canon (W := W) (ws := w1) hb)
+          exact ⟨q, r, by simp only [divRemRepr, hl, if_true, e], h1, h2, h3, h4⟩
+        · have hlt : val W ws < val W w1 :=
+            val_lt_of_length_lt W ws w1 ha.large_words hb.large_ne_nil hb.2.2 (by omega)
+          refine ⟨.small 0, fromBuffer W ws, by simp only [divRemRepr, hl, if_false], ?_, ?_,
+            Nat.two_pow_pos _, fromBuffer_canon W ws ha.large_words⟩
+          · simp [Nat.div_eq_of_lt hlt]
+          · simp [fromBuffer_value, Nat.mod_eq_of_lt hlt]
+
+/-- `Div for TypedRepr` -/
+theorem divRepr_spec (W : Nat) (hW : 1 ≤ W) (a b : TRepr) (ha : a.Canon W) (hb : b.Canon W) :
+    (b.value W = 0 → divRepr W a b = .error .divideByZero) ∧
+    (b.value W ≠ 0 → ∃ q, divRepr W a b = .ok q ∧ q.value W = a.value W / b.value W ∧ q.Canon W) := by
+  cases a with
+  | small x =>
+    cases b with
+    | small y =>
+      constructor
+      · intro h0; simp only [TRepr.value_small] at h0; simp [divRepr, h0]
+      · intro hne
+        simp only [TRepr.value_small] at hne
+        exact ⟨.small (x / y), by simp [divRepr, hne], rfl, small_canon_of_le ha (Nat.div_le_self _ _)⟩
+    | large ws =>
+      have hge := hb.large_ge
+      have hx : x < val W ws := Nat.lt_of_lt_of_le ha hge
+      constructor
+      · intro h0; simp only [TRepr.value_large] at h0; omega
+      · intro _
+        exact ⟨.small 0, rfl, by simp [Nat.div_eq_of_lt hx], Nat.two_pow_pos _⟩
+  | large ws =>
+    cases b with
+    | small y =>
+      have ⟨d0, d1⟩ := divRemLargeDword_spec W hW ws y ha hb
+      constructor
+      · intro h0; simp only [TRepr.value_small] at h0
+        simp only [divRepr, d0 h0, bind, Except.bind]
+      · intro hne
+        simp only [TRepr.value_small] at hne
+        obtain ⟨q, r, e, h1, _, h3, _⟩ := d1 hne
+        exact ⟨q, by simp only [divRepr, e, bind, Except.bind, pure, Except.pure], h1, h3⟩
+    | large w1 =>
+      have hge := hb.large_ge
+      constructor
+      · intro h0; simp only [TRepr.value_large] at h0
+        have := Nat.two_pow_pos (2 * W); omega
+      · intro _
+        by_cases hl : ws.length ≥ w1.length
+        · obtain ⟨_, ⟨q, e, h1, h3⟩, _⟩ := divRemLarge_spec W hW ws w1 ha.large_words
+            hb.large_words (by have := hb.large_len; omega) hl (top_ne_zero_of_canon (W := W) (ws := w1) hb)
+          exact ⟨q, by simp only [divRepr, hl, if_true, e], h1, h3⟩
+        · have hlt : val W ws < val W w1 :=
+            val_lt_of_length_lt W ws w1 ha.large_words hb.large_ne_nil hb.2.2 (by omega)
+          exact ⟨.small 0, by simp only [divRepr, hl, if_false], by simp [Nat.div_eq_of_lt hlt],
+            Nat.two_pow_pos _⟩
+
+/-- `Rem for TypedRepr` -/
+theorem remRepr_spec (W : Nat) (hW : 1 ≤ W) (a b : TRepr) (ha : a.Canon W) (hb : b.Canon W) :
+    (b.value W = 0 → remRepr W a b = .error .divideByZero) ∧
+    (b.value W ≠ 0 → ∃ r, remRepr W a b = .ok r ∧ r.value W = a.value W % b.value W ∧ r.Canon W) := by
+  cases a with
+  | small x =>
+    cases b with
+    | small y =>
+      constructor
+      · intro h0; simp only [TRepr.value_small] at h0; simp [remRepr, h0]
+      · intro hne
+        simp only [TRepr.value_small] at hne
+        exact ⟨.small (x % y), by simp [remRepr, hne], rfl, small_canon_of_le ha (Nat.mod_le _ _)⟩
+    | large ws =>
+      have hge := hb.large_ge
+      have hx : x < val W ws := Nat.lt_of_lt_of_le ha hge
+      constructor
+      · intro h0; simp only [TRepr.value_large] at h0; omega
+      · intro _
+        exact ⟨.small x, rfl, by simp [Nat.mod_eq_of_lt hx], ha⟩
+  | large ws =>
+    cases b with
+    | small y =>
+      have ⟨d0, d1⟩ := remLargeDword_spec W hW ws y ha hb
+      constructor
+      · intro h0; simp only [TRepr.value_small] at h0; simp only [remRepr, d0 h0]
+      · intro hne
+        simp only [TRepr.value_small] at hne
+        have hpos : 0 < y := Nat.pos_of_ne_zero hne
+        exact ⟨.small (val W ws % y), by simp only [remRepr, d1 hne], rfl,
+          Nat.lt_trans (Nat.mod_lt _ hpos) hb⟩
+    | large w1 =>
+      have hge := hb.large_ge
+      constructor
+      · intro h0; simp only [TRepr.value_large] at h0
+        have := Nat.two_pow_pos (2 * W); omega
+      · intro _
+        by_cases hl : ws.length ≥ w1.length
+        · obtain ⟨_, _, ⟨r, e, h1, h3⟩⟩ := divRemLarge_spec W hW ws w1 ha.large_words
+            hb.large_words (by have := hb.large_len; omega) hl (top_ne_zero_of_canon (W := W) (ws := w1) hb)
+          exact ⟨r, by simp only [remRepr, hl, if_true, e], h1, h3⟩
+        · have hlt : val W ws < val W w1 :=
+            val_lt_of_length_lt W ws w1 ha.large_words hb.large_ne_nil hb.2.2 (by omega)
+          exact ⟨fromBuffer W ws, by simp only [remRepr, hl, if_false],
+            by simp [fromBuffer_value, Nat.mod_eq_of_lt hlt], fromBuffer_canon W ws ha.large_words⟩
+
+/-- `TypedRepr::add_one` -/
+theorem addOneRepr_spec (W : Nat) (hW : 1 ≤ W) (a : TRepr) (ha : a.Canon W) :
+    (addOneRepr W a).value W = a.value W + 1 ∧ (addOneRepr W a).Canon W := by
+  cases a with
+  | small d =>
+    have h1 : 1 < 2 ^ (2 * W) := Nat.one_lt_two_pow (by omega)
+    exact ⟨addDword_value W d 1 ha h1, addDword_canon W d 1 ha h1⟩
+  | large ws =>
+    have ⟨s1, s2, s3, s4⟩ := addOne_spec W ws ha.large_words
+    simp only [addOneRepr]
+    generalize addOne W ws = p at *
+    obtain ⟨r, c⟩ := p
+    simp only at s1 s2 s3 s4 ⊢
+    by_cases hc : c = 0
+    · subst hc
+      simp only [if_true]
+      exact ⟨by rw [fromBuffer_value]; simpa using s1, fromBuffer_canon W r s3⟩
+    · have hc1 : c = 1 := by omega
+      subst hc1
+      simp only [if_false, Nat.one_ne_zero]
+      refine ⟨?_, fromBuffer_canon W _ (IsWords.append s3 (isWords_one W hW))⟩
+      rw [fromBuffer_value, val_append_one, s2]
+      simpa using s1
+
+-- ------------------------------------------------------------------ ConstDivisor (`div_const.rs`)
+
+/-- what `ConstDivisor::new(b)` establishes about its precomputed fields -/
+def ConstDiv.Valid (W b : Nat) : ConstDiv → Prop
+  | .single d shift => 0 < b ∧ b < 2 ^ W ∧ shift + 1 ≤ W ∧ d = b * 2 ^ shift ∧ 2 ^ (W - 1) ≤ d ∧ d < 2 ^ W
+  | .double d shift => 2 ^ W ≤ b ∧ b < 2 ^ (2 * W) ∧ shift + 1 ≤ W ∧ d = b * 2 ^ shift ∧
+      2 ^ (2 * W - 1) ≤ d ∧ d < 2 ^ (2 * W)
+  | .large nd shift dtop => 3 ≤ nd.length ∧ IsWords W nd ∧ shift + 1 ≤ W ∧ val W nd = b * 2 ^ shift ∧
+      2 ^ (W * nd.length) ≤ 2 * val W nd ∧ dtop = highestDword W nd ∧ 2 ^ (2 * W) ≤ b
+
+theorem lz_word_lt (W x : Nat) (hW : 1 ≤ W) (hx : x ≠ 0) : lz W x + 1 ≤ W := by
+  simp only [lz, hx, if_false]; omega
+
+/-- `ConstDivisor::new`: zero panics with the documented message, otherwise the fields are valid -/
+theorem ConstDiv.new_spec (W : Nat) (hW : 1 ≤ W) (n : TRepr) (hn : n.Canon W) :
+    (n.value W = 0 → ConstDiv.new W n = .error .divideByZero) ∧
+    (n.value W ≠ 0 → ∃ c, ConstDiv.new W n = .ok c ∧ c.Valid W (n.value W)) := by
+  cases n with
+  | small dw =>
+    simp only [TRepr.value_small]
+    constructor
+    · intro h0; subst h0; rfl
+    · intro hne
+      obtain ⟨k, rfl⟩ : ∃ k, dw = k + 1 := ⟨dw - 1, by omega⟩
+      by_cases hw : k + 1 < 2 ^ W
+      · obtain ⟨l1, l2, l3⟩ := lz_spec (bits := W) hne hw
+        refine ⟨.single ((k + 1) * 2 ^ lz W (k + 1)) (lz W (k + 1)), ?_,
+          by omega, hw, lz_word_lt W _ hW hne, rfl, l2, l3⟩
+        simp only [ConstDiv.new, hw, if_true, Nat.mod_eq_of_lt l3, normNew_ok W _ l2, bind, Except.bind,
+          pure, Except.pure]
+      · have hge : 2 ^ W ≤ k + 1 := Nat.le_of_not_lt hw
+        obtain ⟨l1, l2, l3⟩ := lz_spec (bits := 2 * W) hne hn
+        refine ⟨.double ((k + 1) * 2 ^ lz (2 * W) (k + 1)) (lz (2 * W) (k + 1)), ?_,
+          hge, hn, lz_dword_lt W _ hW hge, rfl, l2, l3⟩
+        simp only [ConstDiv.new, hw, if_false, Nat.mod_eq_of_lt l3, normNew_ok (2 * W) _ l2, bind,
+          Except.bind, pure, Except.pure]
+  | large ws =>
+    simp only [TRepr.value_large]
+    have hge := hn.large_ge
+    constructor
+    · intro h0; have := Nat.two_pow_pos (2 * W); omega
+    · intro _
+      obtain ⟨ws', shift, e, hs, n1, n2, n3, n4⟩ := normalize_spec W hW ws hn.large_words
+        (by have := hn.large_len; omega) (top_ne_zero_of_canon hn)
+      refine ⟨.large ws' shift (highestDword W ws'), ?_, by rw [n1]; exact hn.large_len, n2, hs, n3,
+        by rw [n1]; exact n4, rfl, hge⟩
+      simp only [ConstDiv.new, e, bind, Except.bind, pure, Except.pure]
+
+/-- `ConstDivisor::value()` gives back the divisor -/
+theorem ConstDiv.value_spec (W b : Nat) (c : ConstDiv) (hv : c.Valid W b) :
+    ∃ r, c.value W = .ok r ∧ r.value W = b ∧ r.Canon W := by
+  cases c with
+  | single d shift =>
+    obtain ⟨_, h2, _, h4, _, _⟩ := hv
+    refine ⟨.small (d / 2 ^ shift), rfl, ?_, ?_⟩
+    · simp [h4, Nat.mul_div_cancel _ (Nat.two_pow_pos shift)]
+    · simp only [TRepr.Canon, h4, Nat.mul_div_cancel _ (Nat.two_pow_pos shift)]
+      exact Nat.lt_of_lt_of_le h2 (Nat.pow_le_pow_right (by omega) (by omega))
+  | double d shift =>
+    obtain ⟨_, h2, _, h4, _, _⟩ := hv
+    refine ⟨.small (d / 2 ^ shift), rfl, ?_, ?_⟩
+    · simp [h4, Nat.mul_div_cancel _ (Nat.two_pow_pos shift)]
+    · simp only [TRepr.Canon, h4, Nat.mul_div_cancel _ (Nat.two_pow_pos shift)]; exact h2
+  | large nd shift dtop =>
+    obtain ⟨_, h2, h3, h4, _, _, _⟩ := hv
+    obtain ⟨r', e, r1, _, r3⟩ := shrRemainder_spec W shift b (by omega) nd h2 h4
+    exact ⟨fromBuffer W r', by simp only [ConstDiv.value, e, bind, Except.bind, pure, Except.pure],
+      by rw [fromBuffer_value, r1], fromBuffer_canon W r' r3⟩
+
+theorem pow_shift_le_half (W shift : Nat) (hs : shift + 1 ≤ W) : 2 ^ shift ≤ 2 ^ (W - 1) :=
+  Nat.pow_le_pow_right (by omega) (by omega)
+
+/-- `div_rem_small_single`: inline dividend by a prepared one-word divisor -/
+theorem divRemSmallSingle_spec (W dw b shift : Nat) (hdw : dw < 2 ^ (2 * W)) (hb : 0 < b)
+    (hs : shift + 1 ≤ W) (hd1 : 2 ^ (W - 1) ≤ b * 2 ^ shift) (hd2 : b * 2 ^ shift < 2 ^ W) :
+    ∃ q r, divRemSmallSingle W dw (b * 2 ^ shift) shift = .ok (q, r) ∧ q * b + r = dw ∧ r < b := by
+  have hp : 0 < 2 ^ W := Nat.two_pow_pos W
+  have ⟨d1, d2, d3, d4⟩ := shlDword_spec W dw shift (by omega) hdw
+  generalize hsd : shlDword W dw shift = p at d1 d2 d3 d4
+  obtain ⟨lo, mid, hi⟩ := p
+  simp only at d1 d2 d3 d4
+  have hdpos : 0 < b * 2 ^ shift := Nat.mul_pos hb (Nat.two_pow_pos _)
+  have hhi : hi < b * 2 ^ shift :=
+    Nat.lt_of_lt_of_le d4 (Nat.le_trans (pow_shift_le_half W shift hs) hd1)
+  have hpre1 : (mid + 2 ^ W * hi) / 2 ^ W < b * 2 ^ shift := by
+    rw [add_mul_div_word W mid hi d3]; exact hhi
+  have hr1 : (mid + 2 ^ W * hi) % (b * 2 ^ shift) < b * 2 ^ shift := Nat.mod_lt _ hdpos
+  have hpre0 : (lo + 2 ^ W * ((mid + 2 ^ W * hi) % (b * 2 ^ shift))) / 2 ^ W < b * 2 ^ shift := by
+    rw [add_mul_div_word W lo _ d2]; exact hr1
+  have h1 := Nat.div_add_mod (mid + 2 ^ W * hi) (b * 2 ^ shift)
+  have h0 := Nat.div_add_mod (lo + 2 ^ W * ((mid + 2 ^ W * hi) % (b * 2 ^ shift))) (b * 2 ^ shift)
+  have hr0 := Nat.mod_lt (lo + 2 ^ W * ((mid + 2 ^ W * hi) % (b * 2 ^ shift))) hdpos
+  have heq : ((lo + 2 ^ W * ((mid + 2 ^ W * hi) % (b * 2 ^ shift))) / (b * 2 ^ shift)
+        + 2 ^ W * ((mid + 2 ^ W * hi) / (b * 2 ^ shift))) * (b * 2 ^ shift)
+      + (lo + 2 ^ W * ((mid + 2 ^ W * hi) % (b * 2 ^ shift))) % (b * 2 ^ shift) = dw * 2 ^ shift := by
+    rw [← d1, two_mul_W]
+    generalize (mid + 2 ^ W * hi) / (b * 2 ^ shift) = q1 at *
+    generalize (mid + 2 ^ W * hi) % (b * 2 ^ shift) = r1 at *
+    generalize (lo + 2 ^ W * r1) / (b * 2 ^ shift) = q0 at *
+    generalize (lo + 2 ^ W * r1) % (b * 2 ^ shift) = r0 at *
+    have e1 : 2 ^ W * (b * 2 ^ shift * q1 + r1) = 2 ^ W * (mid + 2 ^ W * hi) := by rw [h1]
+    linarith [e1, h0]
+  have ⟨u1, u2⟩ := unshift _ _ _ _ _ heq hr0
+  refine ⟨_, _, ?_, u1, u2⟩
+  simp only [divRemSmallSingle, hsd, bind, Except.bind, div2by1_ok W _ _ hpre1, div2by1_ok W _ _ hpre0,
+    pure, Except.pure]
+
+/-- the high two words of a shifted inline dividend are below a normalised double-word divisor -/
+theorem shl_hi_lt (W dw shift lo mid hi d : Nat) (hs : shift + 1 ≤ W) (hdw : dw < 2 ^ (2 * W))
+    (h1 : lo + 2 ^ W * mid + 2 ^ (2 * W) * hi = dw * 2 ^ shift) (hd : 2 ^ (2 * W - 1) ≤ d) :
+    mid + 2 ^ W * hi < d := by
+  have h2 := pow_W_shift_le W shift hs
+  have h3 : (dw + 1) * 2 ^ shift ≤ 2 ^ (2 * W) * 2 ^ shift := Nat.mul_le_mul_right _ hdw
+  rw [two_mul_W] at h1 h3
+  have hp := Nat.two_pow_pos W
+  have : 2 ^ W * (mid + 2 ^ W * hi) < 2 ^ W * (2 ^ W * 2 ^ shift) := by nlinarith [Nat.two_pow_pos shift]
+  have := Nat.lt_of_mul_lt_mul_left this
+  omega
+
+/-- `div_rem_small_double`: inline dividend by a prepared double-word divisor -/
+theorem divRemSmallDouble_spec (W dw b shift : Nat) (hdw : dw < 2 ^ (2 * W)) (hb : 0 < b)
+    (hs : shift + 1 ≤ W) (hd1 : 2 ^ (2 * W - 1) ≤ b * 2 ^ shift) :
+    ∃ q r, divRemSmallDouble W dw (b * 2 ^ shift) shift = .ok (q, r) ∧ q * b + r = dw ∧ r < b := by
+  have ⟨d1, d2, d3, d4⟩ := shlDword_spec W dw shift (by omega) hdw
+  generalize hsd : shlDword W dw shift = p at d1 d2 d3 d4
+  obtain ⟨lo, mid, hi⟩ := p
+  simp only at d1 d2 d3 d4
+  have hdpos : 0 < b * 2 ^ shift := Nat.mul_pos hb (Nat.two_pow_pos _)
+  have hpre := shl_hi_lt W dw shift lo mid hi _ hs hdw d1 hd1
+  have h0 := Nat.div_add_mod (lo + 2 ^ W * (mid + 2 ^ W * hi)) (b * 2 ^ shift)
+  have hr0 := Nat.mod_lt (lo + 2 ^ W * (mid + 2 ^ W * hi)) hdpos
+  have heq : (lo + 2 ^ W * (mid + 2 ^ W * hi)) / (b * 2 ^ shift) * (b * 2 ^ shift)
+      + (lo + 2 ^ W * (mid + 2 ^ W * hi)) % (b * 2 ^ shift) = dw * 2 ^ shift := by
+    rw [← d1, two_mul_W, Nat.mul_comm, h0]; ring
+  have ⟨u1, u2⟩ := unshift _ _ _ _ _ heq hr0
+  refine ⟨_, _, ?_, u1, u2⟩
+  simp only [divRemSmallDouble, hsd, bind, Except.bind, div3by2_ok W _ _ _ hpre, pure, Except.pure]
+
+/-- remainder of a shifted value by the shifted divisor, un-shifted -/
+theorem shifted_mod (X b s : Nat) : (X * 2 ^ s) % (b * 2 ^ s) / 2 ^ s = X % b := by
+  rw [Nat.mul_mod_mul_right, Nat.mul_div_cancel _ (Nat.two_pow_pos s)]
+
+/-- `ConstSingleDivisor::rem_dword` = (dword << shift) % d -/
+theorem singleRemDword_spec (W dw b shift : Nat) (hW : 1 ≤ W) (hdw : dw < 2 ^ (2 * W)) (hb : 0 < b)
+    (hs : shift + 1 ≤ W) (hd1 : 2 ^ (W - 1) ≤ b * 2 ^ shift) (hd2 : b * 2 ^ shift < 2 ^ W) :
+    singleRemDword W (b * 2 ^ shift) shift dw = .ok ((dw * 2 ^ shift) % (b * 2 ^ shift)) := by
+  have hp : 0 < 2 ^ W := Nat.two_pow_pos W
+  have hdpos : 0 < b * 2 ^ shift := Nat.mul_pos hb (Nat.two_pow_pos _)
+  have hn : 2 ^ W ≤ 2 * (b * 2 ^ shift) := by
+    have := pow_two_mul_half W hW; omega
+  unfold singleRemDword
+  by_cases h0 : shift = 0
+  · subst h0
+    simp only [if_true, Nat.pow_zero, Nat.mul_one] at *
+    have hhi : dw / 2 ^ W < 2 ^ W := by
+      rw [Nat.div_lt_iff_lt_mul hp, ← two_mul_W]; exact hdw
+    have hr1 : (div1by1 b (dw / 2 ^ W)).2 = dw / 2 ^ W % b := div1by1_snd W b _ hb hn hhi
+    have hpre : (dw % 2 ^ W + 2 ^ W * (dw / 2 ^ W % b)) / 2 ^ W < b := by
+      rw [add_mul_div_word W _ _ (Nat.mod_lt _ hp)]; exact Nat.mod_lt _ hb
+    simp only [hr1, bind, Except.bind, div2by1_ok W _ _ hpre, pure, Except.pure]
+    rw [mod_step, Nat.add_comm, Nat.div_add_mod]
+  · rw [if_neg h0]
+    have ⟨d1, d2, d3, d4⟩ := shlDword_spec W dw shift (by omega) hdw
+    generalize hsd : shlDword W dw shift = p at d1 d2 d3 d4
+    obtain ⟨n0, n1, n2⟩ := p
+    simp only at d1 d2 d3 d4
+    have hhi : n2 < b * 2 ^ shift :=
+      Nat.lt_of_lt_of_le d4 (Nat.le_trans (pow_shift_le_half W shift hs) hd1)
+    have hpre1 : (n1 + 2 ^ W * n2) / 2 ^ W < b * 2 ^ shift := by
+      rw [add_mul_div_word W n1 n2 d3]; exact hhi
+    have hpre0 : (n0 + 2 ^ W * ((n1 + 2 ^ W * n2) % (b * 2 ^ shift))) / 2 ^ W < b * 2 ^ shift := by
+      rw [add_mul_div_word W n0 _ d2]; exact Nat.mod_lt _ hdpos
+    simp only [bind, Except.bind, div2by1_ok W _ _ hpre1, div2by1_ok W _ _ hpre0, pure, Except.pure]
+    rw [mod_step, ← d1, two_mul_W]
+    congr 2; ring
+
+/-- `ConstSingleDivisor::rem_large` = (words << shift) % d -/
+theorem singleRemLarge_spec (W b shift : Nat) (hW : 1 ≤ W) (ws : List Nat) (h : IsWords W ws)
+    (hne : ws ≠ []) (hb : 0 < b) (hs : shift + 1 ≤ W) (hd1 : 2 ^ (W - 1) ≤ b * 2 ^ shift)
+    (hd2 : b * 2 ^ shift < 2 ^ W) :
+    singleRemLarge W (b * 2 ^ shift) shift ws = .ok ((val W ws * 2 ^ shift) % (b * 2 ^ shift)) := by
+  have hps : 0 < 2 ^ shift := Nat.two_pow_pos _
+  have hdpos : 0 < b * 2 ^ shift := Nat.mul_pos hb hps
+  have hn : 2 ^ W ≤ 2 * (b * 2 ^ shift) := by
+    have := pow_two_mul_half W hW; omega
+  have e := fastRemByNormalizedWord_spec W _ hdpos (Nat.le_of_lt hd2) hn ws h hne
+  have hr : val W ws % (b * 2 ^ shift) < b * 2 ^ shift := Nat.mod_lt _ hdpos
+  unfold singleRemLarge
+  by_cases h0 : shift = 0
+  · subst h0
+    simp only [Nat.pow_zero, Nat.mul_one] at e ⊢
+    simp [e, bind, Except.bind, pure, Except.pure]
+  · have hpre : (val W ws % (b * 2 ^ shift) * 2 ^ shift) / 2 ^ W < b * 2 ^ shift := by
+      rw [Nat.div_lt_iff_lt_mul (Nat.two_pow_pos W)]
+      calc val W ws % (b * 2 ^ shift) * 2 ^ shift
+            < 2 ^ W * 2 ^ shift := Nat.mul_lt_mul_of_pos_right (Nat.lt_trans hr hd2) hps
+        _ ≤ 2 ^ W * (b * 2 ^ shift) := Nat.mul_le_mul_left _ (Nat.le_mul_of_pos_left _ hb)
+        _ = b * 2 ^ shift * 2 ^ W := Nat.mul_comm _ _
+    simp only [e, bind, Except.bind, ne_eq, h0, not_false_eq_true, if_true, div2by1_ok W _ _ hpre, pure,
+      Except.pure]
+    rw [Nat.mul_mod, Nat.mod_mod, ← Nat.mul_mod]
+
+/-- `ConstDoubleDivisor::rem_dword` = (dword << shift) % d -/
+theorem doubleRemDword_spec (W dw b shift : Nat) (hW : 1 ≤ W) (hdw : dw < 2 ^ (2 * W)) (hb : 0 < b)
+    (hs : shift + 1 ≤ W) (hd1 : 2 ^ (2 * W - 1) ≤ b * 2 ^ shift) :
+    doubleRemDword W (b * 2 ^ shift) shift dw = .ok ((dw * 2 ^ shift) % (b * 2 ^ shift)) := by
+  have hn : 2 ^ (2 * W) ≤ 2 * (b * 2 ^ shift) := by
+    have := pow_two_mul_half (2 * W) (by omega); omega
+  unfold doubleRemDword
+  by_cases h0 : shift = 0
+  · subst h0
+    simp only [if_true, Nat.pow_zero, Nat.mul_one] at *
+    rw [div2by2_snd W b dw hn hdw]
+  · rw [if_neg h0]
+    have ⟨d1, d2, d3, d4⟩ := shlDword_spec W dw shift (by omega) hdw
+    generalize hsd : shlDword W dw shift = p at d1 d2 d3 d4
+    obtain ⟨n0, n1, n2⟩ := p
+    simp only at d1 d2 d3 d4
+    have hpre := shl_hi_lt W dw shift n0 n1 n2 _ hs hdw d1 hd1
+    simp only [bind, Except.bind, div3by2_ok W _ _ _ hpre, pure, Except.pure]
+    rw [← d1, two_mul_W]
+    congr 2; ring
+
+/-- `ConstDoubleDivisor::rem_large` = (words << shift) % d -/
+theorem doubleRemLarge_spec (W b shift : Nat) (hW : 1 ≤ W) (ws : List Nat) (h : IsWords W ws)
+    (hlen : 2 ≤ ws.length) (hb : 0 < b) (hs : shift + 1 ≤ W)
+    (hd1 : 2 ^ (2 * W - 1) ≤ b * 2 ^ shift) (hd2 : b * 2 ^ shift < 2 ^ (2 * W)) :
+    doubleRemLarge W (b * 2 ^ shift) shift ws = .ok ((val W ws * 2 ^ shift) % (b * 2 ^ shift)) := by
+  have hps : 0 < 2 ^ shift := Nat.two_pow_pos _
+  have hdpos : 0 < b * 2 ^ shift := Nat.mul_pos hb hps
+  have hn : 2 ^ (2 * W) ≤ 2 * (b * 2 ^ shift) := by
+    have := pow_two_mul_half (2 * W) (by omega); omega
+  have e := fastRemByNormalizedDword_spec W _ hdpos hn ws h hlen
+  have hr : val W ws % (b * 2 ^ shift) < b * 2 ^ shift := Nat.mod_lt _ hdpos
+  unfold doubleRemLarge
+  by_cases h0 : shift = 0
+  · subst h0
+    simp only [Nat.pow_zero, Nat.mul_one] at e ⊢
+    simp [e, bind, Except.bind, pure, Except.pure]
+  · have ⟨d1, d2, d3, d4⟩ := shlDword_spec W (val W ws % (b * 2 ^ shift)) shift (by omega)
+      (Nat.lt_trans hr hd2)
+    generalize hsd : shlDword W (val W ws % (b * 2 ^ shift)) shift = p at d1 d2 d3 d4
+    obtain ⟨r0, r1, r2⟩ := p
+    simp only at d1 d2 d3 d4
+    have hpre := shl_hi_lt W _ shift r0 r1 r2 _ hs (Nat.lt_trans hr hd2) d1 hd1
+    simp only [e, bind, Except.bind, ne_eq, h0, not_false_eq_true, if_true, hsd,
+      div3by2_ok W _ _ _ hpre, pure, Except.pure]
+    have : r0 + 2 ^ W * (r1 + 2 ^ W * r2) = val W ws % (b * 2 ^ shift) * 2 ^ shift := by
+      rw [← d1, two_mul_W]; ring
+    rw [this, Nat.mul_mod, Nat.mod_mod, ← Nat.mul_mod]
 
 end Dashu.Model.Div
